@@ -35,6 +35,7 @@ const (
 	KFunc
 	KQCmp // boolean "q S I" (S is the comparison operator, I the constant), possibly negated via flipped S
 	KQMask // integer q & I (q within 0..65535)
+	KPos   // an integer known to be >= 1 (length of a slice something was appended to)
 )
 
 // AV is an abstract value.
@@ -168,6 +169,7 @@ type PEval struct {
 	Inline    func(*ssa.Function) bool // which callees to explore (default: library functions)
 	InlineIf  func(callee *ssa.Function, args []AV) bool // optional additional condition on the abstract arguments
 	NoInlineInHavoc bool // after a loop was re-entered, treat library calls as opaque
+	Unroll    int  // exact loop iterations explored before havoc mode (default 1)
 	OnCall    func(ev *PEval, call *ssa.Call, callee *ssa.Function, args []AV) (AV, bool)
 	AssumeNonNil func(path string) bool // symbolic objects assumed non-nil
 	MaxSteps  int  // budget of instructions evaluated over all paths (default 2,000,000)
@@ -337,7 +339,11 @@ func (ev *PEval) block(s *pstate, fr *frame, b *ssa.BasicBlock, pred *ssa.BasicB
 		return
 	}
 	if start == 0 {
-		if fr.visited[b] >= 2 || (fr.visited[b] == 1 && !ev.LoopOK) {
+		unroll := ev.Unroll
+		if unroll < 1 {
+			unroll = 1
+		}
+		if fr.visited[b] >= unroll+1 || (fr.visited[b] == 1 && !ev.LoopOK) {
 			if ev.LoopOK {
 				ev.paths++
 				ev.Truncated = true
@@ -352,7 +358,7 @@ func (ev *PEval) block(s *pstate, fr *frame, b *ssa.BasicBlock, pred *ssa.BasicB
 			ev.fail("loop at %s in %s (region extraction needs loop-free flow in q)", b.Comment, FnKey(fr.fn))
 			return
 		}
-		if fr.visited[b] == 1 && !s.havoc {
+		if fr.visited[b] == unroll && !s.havoc {
 			s.havoc = true
 			s.havocLoop = naturalLoop(b)
 		} else if s.havoc && s.havocLoop != nil && !s.havocLoop[b] && b.Parent() == loopParent(s.havocLoop) {
@@ -905,8 +911,12 @@ func knownExternal(callee *ssa.Function, call *ssa.Call, args []AV) (AV, bool) {
 		case "Errorf", "New", "Wrapf", "Wrap", "Join":
 			// Wrap/Wrapf return nil for a nil cause; only Errorf/New are unconditional
 			nonnil = name == "Errorf" || name == "New"
-			if (name == "Wrapf" || name == "Wrap") && len(args) > 0 {
-				switch nilness(args[0]) {
+			causeIdx := 0
+			if callee.Signature.Recv() != nil {
+				causeIdx = 1 // builder method: receiver first
+			}
+			if (name == "Wrapf" || name == "Wrap") && len(args) > causeIdx {
+				switch nilness(args[causeIdx]) {
 				case 2:
 					nonnil = true
 				case 1:
@@ -935,6 +945,17 @@ func (ev *PEval) builtin(b *ssa.Builtin, args []AV) AV {
 			case KNil:
 				return AV{K: KInt}
 			}
+			if args[0].Tag == "nonempty" {
+				return AV{K: KPos}
+			}
+		}
+	case "append":
+		// appending at least one element yields a non-empty slice
+		if len(args) == 2 && args[1].Tag == "varargs1" {
+			return AV{K: KNonNil, Tag: "nonempty"}
+		}
+		if len(args) >= 1 && args[0].Tag == "nonempty" {
+			return AV{K: KNonNil, Tag: "nonempty"}
 		}
 	}
 	return AV{}
@@ -961,6 +982,9 @@ func (ev *PEval) instr(s *pstate, fr *frame, v ssa.Value) AV {
 		a := ev.val(s, x.X)
 		switch x.Op {
 		case token.MUL:
+			if a.Tag == "errs-elem-addr" {
+				return AV{K: KNonNil, Tag: "err-elem"}
+			}
 			switch a.K {
 			case KNil:
 				ev.trap(s, x, "nil pointer dereference")
@@ -1080,6 +1104,11 @@ func (ev *PEval) instr(s *pstate, fr *frame, v ssa.Value) AV {
 		}
 		return AV{K: KNonNil}
 	case *ssa.Slice:
+		if al, ok := x.X.(*ssa.Alloc); ok && x.Low == nil && x.High == nil {
+			if arr, ok := al.Type().Underlying().(*types.Pointer).Elem().Underlying().(*types.Array); ok && arr.Len() >= 1 {
+				return AV{K: KNonNil, Tag: "varargs1"}
+			}
+		}
 		a := ev.val(s, x.X)
 		if a.K == KNil {
 			// slicing a nil slice is fine only for [0:0]; through a nil array pointer it always panics
@@ -1108,6 +1137,9 @@ func (ev *PEval) instr(s *pstate, fr *frame, v ssa.Value) AV {
 		a := ev.val(s, x.X)
 		if a.K == KNil {
 			ev.trap(s, x, "index into nil/empty slice or nil array pointer")
+		}
+		if sl, ok := x.X.Type().Underlying().(*types.Slice); ok && isErrorT(sl.Elem()) {
+			return AV{K: KNonNil, Tag: "errs-elem-addr"} // elements of an error list are non-nil errors (convention)
 		}
 		return AV{}
 	case *ssa.Index:
@@ -1174,6 +1206,35 @@ func (ev *PEval) binop(op token.Token, x, y AV, t types.Type) AV {
 			return AV{K: KBool, B: x.I > y.I}
 		case token.GEQ:
 			return AV{K: KBool, B: x.I >= y.I}
+		}
+		return AV{}
+	}
+	if x.K == KPos && y.K == KInt {
+		switch op {
+		case token.GTR:
+			if y.I <= 0 {
+				return AV{K: KBool, B: true}
+			}
+		case token.GEQ:
+			if y.I <= 1 {
+				return AV{K: KBool, B: true}
+			}
+		case token.NEQ:
+			if y.I <= 0 {
+				return AV{K: KBool, B: true}
+			}
+		case token.EQL:
+			if y.I <= 0 {
+				return AV{K: KBool, B: false}
+			}
+		case token.LSS:
+			if y.I <= 1 {
+				return AV{K: KBool, B: false}
+			}
+		case token.LEQ:
+			if y.I <= 0 {
+				return AV{K: KBool, B: false}
+			}
 		}
 		return AV{}
 	}
